@@ -77,12 +77,12 @@ def record_text(rdtype, covers, c, v):
 # World "dyn": the model type "DYN" is an unassigned type code, FRESH for every history
 # (run-time registrations and anything cached per type code are process-global; a code never
 # used before in this interpreter is as good as a fresh interpreter).
-_DYN = {"next": 30000, "code": None}
+_DYN = {"next": 33000, "code": None}  # 33001..64999: unassigned, not private-use-reserved by anything here
 
 
 def fresh_dyn_code():
     _DYN["next"] += 1
-    if _DYN["next"] > 60000:
+    if _DYN["next"] >= 65000:
         raise RuntimeError("out of fresh type codes")
     _DYN["code"] = _DYN["next"]
     return _DYN["code"]
